@@ -13,7 +13,7 @@ with open(_os.path.join(_os.path.dirname(_os.path.abspath(__file__)), "theorems_
 REGISTRY = {
     "C02": {
         "level": "proof",
-        "modules": ["CoCoVerif.Props.C02"], "theorems": _T["C02"],
+        "modules": ["CoCoVerif.Props.C02", "CoCoVerif.Props.C02Size"], "theorems": _T["C02"],
         "rule": "cases = directed layout programs (ORG first / later / code before ORG, duplicate and undefined symbols, origins below $100), random "
                 "grammar-directed programs, README mutations, EQU/label matrix; on every accepted program the implementation's listing is re-checked: "
                 "image = concatenation, address(i+1) = address(i) + bytes(i), label value = listing address",
